@@ -1307,6 +1307,132 @@ namespace vh
               printDense(o, store[s]->variables_);
               return o.os.str();
             }
+            // ---- the setters of State with arbitrary (possibly invalid) arguments: names, labels, lengths
+            if (op == "xsetc" || op == "xsetp")
+            {
+              auto s = t.nat();
+              std::string name = t.str();
+              auto vals = t.flts(t.nat());
+              if (!store[s])
+                return "nostate";
+              if (op == "xsetc")
+                store[s]->SetConcentration(micm::Species(name), vals);
+              else
+                store[s]->SetCustomRateParameter(name, vals);
+              return "ok";
+            }
+            if (op == "xsetc1" || op == "xsetp1")
+            {
+              auto s = t.nat();
+              std::string name = t.str();
+              double v = t.flt();
+              if (!store[s])
+                return "nostate";
+              if (op == "xsetc1")
+                store[s]->SetConcentration(micm::Species(name), v);
+              else
+                store[s]->SetCustomRateParameter(name, v);
+              return "ok";
+            }
+            if (op == "xsetcs" || op == "xsetps" || op == "xsetcs_law" || op == "xsetps_law")
+            {
+              // bulk setters taking an unordered_map.  The `_law` variants check, on the real object, the prefix law the
+              // model proves (C20_bulk_prefix): the entries applied are exactly those that precede the first rejected
+              // entry in the map's own iteration order.  Every entry carries values that differ from what the State holds.
+              bool conc = op[4] == 'c';
+              bool law = op.size() > 6;
+              auto s = t.nat();
+              std::size_t k = t.nat();
+              std::unordered_map<std::string, std::vector<double>> m;
+              for (std::size_t i = 0; i < k; ++i)
+              {
+                std::string name = t.str();
+                auto vals = t.flts(t.nat());
+                m[name] = vals;
+              }
+              if (!store[s])
+                return "nostate";
+              auto& st = *store[s];
+              std::string outcome = "ok";
+              try
+              {
+                if (conc)
+                  st.SetConcentrations(m);
+                else
+                  st.SetCustomRateParameters(m);
+              }
+              catch (const std::system_error& e)
+              {
+                outcome = errString(e);
+              }
+              if (!law)
+                return outcome;
+              auto& names = conc ? st.variable_map_ : st.custom_rate_parameter_map_;
+              bool seenBad = false;
+              for (auto& kv : m)   // the same object iterates in the same order
+              {
+                auto it = names.find(kv.first);
+                bool valid = it != names.end() && kv.second.size() == ncell;
+                if (!valid)
+                {
+                  seenBad = true;
+                  continue;
+                }
+                bool applied = true;
+                for (std::size_t c = 0; c < ncell; ++c)
+                {
+                  double cur = conc ? st.variables_[c][it->second] : st.custom_rate_parameters_[c][it->second];
+                  if (cur != kv.second[c])
+                    applied = false;
+                }
+                if (applied == seenBad)
+                  return "law broken at entry " + kv.first + " (" + outcome + ")";
+              }
+              if ((outcome == "ok") == seenBad)
+                return "law broken: outcome " + outcome;
+              return "law ok";
+            }
+            if (op == "xunsafep")
+            {
+              auto s = t.nat();
+              std::size_t nrows = t.nat();
+              std::vector<std::vector<double>> rows;
+              for (std::size_t i = 0; i < nrows; ++i)
+                rows.push_back(t.flts(t.nat()));
+              if (!store[s])
+                return "nostate";
+              store[s]->UnsafelySetCustomRateParameters(rows);
+              return "ok";
+            }
+            if (op == "xsettol")
+            {
+              auto s = t.nat();
+              auto at = t.flts(t.nat());
+              double rt = t.flt();
+              if (!store[s])
+                return "nostate";
+              store[s]->SetAbsoluteTolerances(at);
+              store[s]->SetRelativeTolerance(rt);
+              return "ok";
+            }
+            if (op == "dumpv")
+            {
+              auto s = t.nat();
+              if (!store[s])
+                return "nostate";
+              Out o;
+              o.os << "dumpv";
+              o.key("v");
+              printDense(o, store[s]->variables_);
+              o.key("p");
+              printDense(o, store[s]->custom_rate_parameters_);
+              o.key("a");
+              for (auto v : store[s]->absolute_tolerance_)
+                o.d(v);
+              o.key("r");
+              o.d(store[s]->relative_tolerance_);
+              return o.os.str();
+            }
             if (op == "cpc")
             {
               auto s = t.nat();
